@@ -63,13 +63,22 @@ class RestrictedUnpickler(pickle.Unpickler):
 
 class RestrictedPyUnpickler(pickle._Unpickler):  # type: ignore[name-defined]
     """Pure-Python unpickler that cannot import anything.  Used for hostile traffic (C06): the C unpickler sizes its
-    memo *array* from the LONG_BINPUT index (4 random bytes -> up to 64 GiB), the Python one uses a dict."""
+    memo *array* from the LONG_BINPUT index (4 random bytes -> up to 64 GiB), the Python one uses a dict.
+    BYTEARRAY8 is refused as well: pickle._Unpickler.load_bytearray8 pre-allocates bytearray(<8-byte length from the wire>)
+    (seen: a 458 GiB request that stalled a worker); bytearray is not in any packet domain of the matrix."""
+
+    dispatch = dict(pickle._Unpickler.dispatch)  # type: ignore[attr-defined]
 
     def find_class(self, module: str, name: str) -> Any:
         raise pickle.UnpicklingError(f"global {module}.{name} is forbidden")
 
     def persistent_load(self, pid: Any) -> Any:
         raise pickle.UnpicklingError("persistent ids are forbidden")
+
+    def _refuse_bytearray8(self) -> None:
+        raise pickle.UnpicklingError("BYTEARRAY8 is forbidden")
+
+    dispatch[pickle.BYTEARRAY8[0]] = _refuse_bytearray8
 
 
 def _unpickler(hostile: bool):
